@@ -83,6 +83,17 @@ class StandardGeometry(BaseGeometry):
         z1 = rays.z + t1 * rays.N
         z2 = rays.z + t2 * rays.N
 
+        # the surface is the sheet of the quadric through the vertex, where
+        # radius - (1 + k) z has the sign of the radius; a root on the other
+        # sheet of a hyperboloid (or on the far half of an ellipsoid) is not
+        # an intersection with the surface, however close to z = 0 it lies
+        with warnings.catch_warnings():
+            warnings.simplefilter('ignore')
+            t1[(self.radius - (1 + self.k) * z1) * self.radius < 0] = np.inf
+            t2[(self.radius - (1 + self.k) * z2) * self.radius < 0] = np.inf
+            z1 = rays.z + t1 * rays.N
+            z2 = rays.z + t2 * rays.N
+
         # take intersection closest to z = 0 (i.e., vertex of geometry)
         t = np.where(np.abs(z1) <= np.abs(z2), t1, t2)
 
